@@ -796,6 +796,13 @@ func (p *Parsed) CanonLiterals(gi int) int {
 				lit.Value = "17"
 				n++
 			}
+		case token.FLOAT:
+			// DefaultLiteralPolicy.AbstractOtherTypes: every non-integer, non-string constant
+			// is a placeholder under the default policy
+			if lit.Value != "1.5" {
+				lit.Value = "1.5"
+				n++
+			}
 		}
 	})
 	return n
